@@ -135,6 +135,19 @@ func TestC19(t *testing.T) {
 			for _, name := range []string{".bn", "a b.bn", "স্ক্রিপ্ট.bn", "x.y.bn", "x.txt.bn", "sub dir/z.bn"} {
 				chk("name-"+name, []string{write(name)}, is(0), true, "a script whose name ends in .bn must run")
 			}
+			// arguments are taken as they are: nothing is an option, nothing is swallowed (relative names; the
+			// executable runs in the scratch directory)
+			write("-dash.bn")
+			write("--.bn")
+			chk("dash-name", []string{"-dash.bn"}, is(0), true, "a script whose name begins with a dash and ends in .bn must run")
+			chk("dashdash-name", []string{"--.bn"}, is(0), true, "a script named --.bn must run")
+			chk("relative-name", []string{"ok.bn"}, is(0), true, "a relative script name must run")
+			for _, a := range []string{"--", "-", "-h", "--help", "-x", "-version", "--version", "-bn", ""} {
+				chk("lone-"+a, []string{a}, is(64), false, "a single argument not ending in .bn must exit 64 with a message and run nothing")
+			}
+			for _, args := range [][]string{{"--", "ok.bn"}, {"ok.bn", "--"}, {"-v", "ok.bn"}, {"-", "ok.bn"}, {"--help", "ok.bn"}, {"", "ok.bn"}, {"ok.bn", ""}, {"--", "--"}} {
+				chk("pair-"+strings.Join(args, "+"), args, is(64), false, "two arguments must exit 64 with a message and run nothing, whatever they look like")
+			}
 			chk("missing", []string{filepath.Join(dir, "missing.bn")}, nonzero, false, "an unreadable file must exit non-zero with a message")
 			os.MkdirAll(filepath.Join(dir, "d.bn"), 0o755)
 			chk("directory", []string{filepath.Join(dir, "d.bn")}, nonzero, false, "a directory named like a script must exit non-zero with a message")
